@@ -197,6 +197,10 @@ class SmtLibSolver(Solver): # TODO this class is defined twice in pysmt. Here an
         self._send_silent_command(SmtLibCommand(smtcmd.POP, [levels]))
 
     def get_value(self, item):
+        for d in item.get_free_variables():
+            if all(d not in dv for dv in self.declared_vars):
+                raise PysmtValueError("Symbol '%s' is not known to the solver: "
+                                      "cannot get its value" % d)
         self._send_command(SmtLibCommand(smtcmd.GET_VALUE, [item]))
         lst = self._get_value_answer()
         assert len(lst) == 1
